@@ -7,6 +7,7 @@ import (
 	"flag"
 	"fmt"
 	"os"
+	"runtime/debug"
 
 	"verif/harness/internal/h"
 )
@@ -26,6 +27,14 @@ func main() {
 		os.Exit(2)
 	}
 	c := h.NewCtx(*prop, *tier, *seed, *cases)
-	f(c)
+	func() {
+		defer func() {
+			if r := recover(); r != nil {
+				// a panic that escaped every protected call: attribute it instead of dying without a verdict
+				c.Violation("implementation panicked outside a protected call", map[string]any{"panic": fmt.Sprint(r), "stack": string(debug.Stack())})
+			}
+		}()
+		f(c)
+	}()
 	c.Finish(*result)
 }
